@@ -55,9 +55,11 @@ func (t *timingRT) RoundTrip(req *http.Request) (*http.Response, error) {
 		time.Sleep(d)
 	}
 	took := time.Since(t.start) - at
-	t.mu.Lock()
-	t.entry[seq], t.dur[seq] = int64(at), int64(took)
-	t.mu.Unlock()
+	if req.Header.Get("X-Vegeta-Attack") == "c05" { // (a second attack of the same Attacker is served, not recorded)
+		t.mu.Lock()
+		t.entry[seq], t.dur[seq] = int64(at), int64(took)
+		t.mu.Unlock()
+	}
 	// every exit path of a hit must stamp its latency: some exchanges fail in the transport,
 	// some while the body is read
 	switch {
@@ -141,6 +143,22 @@ func runC05(idx int, rng *rand.Rand, tier string) []Case {
 			return inner(t)
 		}
 	}
+	// a second attack of the same Attacker, begun while the first one runs: the sequence numbers and
+	// timestamps of each attack are its own ("within one attack"), the other attack must not disturb them
+	overlap := idx%7 == 6
+	var second sync.WaitGroup
+	if overlap {
+		second.Add(1)
+		go func() {
+			defer second.Done()
+			time.Sleep(3 * time.Millisecond)
+			n := 0
+			for range atk.Attack(tr, vegeta.ConstantPacer{Freq: 20000, Per: time.Second}, 8*time.Millisecond, "c05-second") {
+				n++
+			}
+		}()
+	}
+	defer second.Wait()
 	for r := range atk.Attack(tr, vegeta.ConstantPacer{}, dur, "c05") {
 		rs = append(rs, r)
 		if len(rs) >= limit {
@@ -178,7 +196,7 @@ func runC05(idx int, rng *rand.Rand, tier string) []Case {
 	pl.Close()
 	w.I(refused)
 	c.Tag = fmt.Sprintf("w%d;nt", workers)
-	c.Dist = fmt.Sprintf("workers%d/slow=%v/timeout=%v/slowtargeter=%v/grow=%v/targetsrunout=%v/n%d", workers, slow, shortTimeout, slowTargeter, growPool, failingTargeter, sizeClass(len(rs)))
+	c.Dist = fmt.Sprintf("workers%d/slow=%v/timeout=%v/slowtargeter=%v/grow=%v/targetsrunout=%v/overlap=%v/n%d", workers, slow, shortTimeout, slowTargeter, growPool, failingTargeter, overlap, sizeClass(len(rs)))
 	c.Sample = map[string]interface{}{"workers": workers, "results": len(rs), "transport_latency": slow}
 	return []Case{c}
 }
